@@ -115,12 +115,162 @@ type c01Corpus struct {
 	names []string
 }
 
+// X_deepchain: two induction variables whose start values share an arithmetic chain deeper than
+// the expression-depth guard (the cached form of a shared sub-expression depends on where it was
+// first reached from, so the ORDER in which the variables are classified must be fixed).
+const c01Deep = `
+func X_deepchain(a, n int) int {
+	x0 := a
+	x1 := x0 + 2
+	x2 := x1 + 3
+	x3 := x2 + 4
+	x4 := x3 + 5
+	x5 := x4 + 6
+	x6 := x5 + 7
+	x7 := x6 + 1
+	x8 := x7 + 2
+	x9 := x8 + 3
+	x10 := x9 + 4
+	x11 := x10 + 5
+	x12 := x11 + 6
+	x13 := x12 + 7
+	x14 := x13 + 1
+	x15 := x14 + 2
+	x16 := x15 + 3
+	x17 := x16 + 4
+	x18 := x17 + 5
+	x19 := x18 + 6
+	x20 := x19 + 7
+	x21 := x20 + 1
+	x22 := x21 + 2
+	x23 := x22 + 3
+	x24 := x23 + 4
+	x25 := x24 + 5
+	x26 := x25 + 6
+	x27 := x26 + 7
+	x28 := x27 + 1
+	x29 := x28 + 2
+	x30 := x29 + 3
+	x31 := x30 + 4
+	x32 := x31 + 5
+	x33 := x32 + 6
+	x34 := x33 + 7
+	x35 := x34 + 1
+	x36 := x35 + 2
+	x37 := x36 + 3
+	x38 := x37 + 4
+	x39 := x38 + 5
+	x40 := x39 + 6
+	x41 := x40 + 7
+	x42 := x41 + 1
+	x43 := x42 + 2
+	x44 := x43 + 3
+	x45 := x44 + 4
+	x46 := x45 + 5
+	x47 := x46 + 6
+	x48 := x47 + 7
+	x49 := x48 + 1
+	x50 := x49 + 2
+	x51 := x50 + 3
+	x52 := x51 + 4
+	x53 := x52 + 5
+	x54 := x53 + 6
+	x55 := x54 + 7
+	x56 := x55 + 1
+	x57 := x56 + 2
+	x58 := x57 + 3
+	x59 := x58 + 4
+	x60 := x59 + 5
+	x61 := x60 + 6
+	x62 := x61 + 7
+	x63 := x62 + 1
+	x64 := x63 + 2
+	x65 := x64 + 3
+	x66 := x65 + 4
+	x67 := x66 + 5
+	x68 := x67 + 6
+	x69 := x68 + 7
+	x70 := x69 + 1
+	x71 := x70 + 2
+	x72 := x71 + 3
+	x73 := x72 + 4
+	x74 := x73 + 5
+	x75 := x74 + 6
+	x76 := x75 + 7
+	x77 := x76 + 1
+	x78 := x77 + 2
+	x79 := x78 + 3
+	x80 := x79 + 4
+	x81 := x80 + 5
+	x82 := x81 + 6
+	x83 := x82 + 7
+	x84 := x83 + 1
+	x85 := x84 + 2
+	x86 := x85 + 3
+	x87 := x86 + 4
+	x88 := x87 + 5
+	x89 := x88 + 6
+	x90 := x89 + 7
+	x91 := x90 + 1
+	x92 := x91 + 2
+	x93 := x92 + 3
+	x94 := x93 + 4
+	x95 := x94 + 5
+	x96 := x95 + 6
+	x97 := x96 + 7
+	x98 := x97 + 1
+	x99 := x98 + 2
+	x100 := x99 + 3
+	x101 := x100 + 4
+	x102 := x101 + 5
+	x103 := x102 + 6
+	x104 := x103 + 7
+	x105 := x104 + 1
+	x106 := x105 + 2
+	x107 := x106 + 3
+	x108 := x107 + 4
+	x109 := x108 + 5
+	x110 := x109 + 6
+	x111 := x110 + 7
+	x112 := x111 + 1
+	x113 := x112 + 2
+	x114 := x113 + 3
+	x115 := x114 + 4
+	x116 := x115 + 5
+	x117 := x116 + 6
+	x118 := x117 + 7
+	x119 := x118 + 1
+	x120 := x119 + 2
+	x121 := x120 + 3
+	x122 := x121 + 4
+	x123 := x122 + 5
+	x124 := x123 + 6
+	x125 := x124 + 7
+	x126 := x125 + 1
+	x127 := x126 + 2
+	x128 := x127 + 3
+	x129 := x128 + 4
+	x130 := x129 + 5
+	s := 0
+	j := x130
+	for i := x100; i < n; i++ {
+		if i%2 == 0 {
+			s += j + i
+		} else {
+			s -= i
+		}
+		j += 2
+	}
+	return s
+}
+`
+
 func c01Load(scratch string) (*c01Corpus, error) {
 	var fs []string
 	for _, b := range progfam.Bases() {
 		fs = append(fs, progfam.Rename(b.Src, "F", "F_"+b.ID))
 	}
-	src := progfam.RenderFile(fs) + c01Extra
+	src := progfam.RenderFile(fs) + c01Extra + c01Deep
 	d := filepath.Join(scratch, "corpus")
 	os.MkdirAll(d, 0o755)
 	p := filepath.Join(d, "corpus.go")
